@@ -1,4 +1,155 @@
-import AkVerif.Lemmas.Table
-import AkVerif.Model.TableFmt
+import AkVerif.Lemmas.TableFmt
+/-!
+# C13 — a table's reported format string reproduces the table
+
+Property theorems only. The model: `Table.fmtToStr` (= `str(table.fmt)`), `Table.parseFmt`,
+`Table.applySetter` (= `table.fmt = s`), `Table.mkTable` (= `PPTable(records, fmt=s, fields=…)`),
+`Table.render` — the functions `Drv/C13.lean` executes.
+
+`Table.Reach a t`: `t` is a state of a table constructed with the arguments `a`, after any history
+of printing, `table.fmt = <any string>` and re-construction from any string.
+`Table.lines t`: the lines `t` prints. `Table.NameOk s`: `s` contains none of `, : ; ! / < ( )` and
+has no blank at either end (what a format string can express).
+-/
 namespace C13
+open Table Ak
+
+/-- Parse ∘ print. For every format state — fresh or printed, i.e. with or without negotiated
+widths and `any_lines_skipped` — with at least one column and expressible names, the printed
+string is accepted by the parser and reads back as the very same columns (field name, modifier,
+break-by mark, width bounds; no value path) and the same limits: none when the last printing
+skipped nothing, `*` when a limit is absent, `first:last` otherwise. In particular the
+`(width)` suffix of a printed ranged column is accepted and ignored. -/
+theorem parse_print (f : Fmt) (hne : f.cols ≠ [])
+    (hn : ∀ c ∈ f.cols, NameOk c.field.name ∧ ∀ m, c.modifier = some m → NameOk m) :
+    parseFmt (fmtToStr f) = .ok
+      { cols := .explicit (f.cols.map fun c =>
+          { fieldName := c.field.name, modifier := c.modifier, breakBy := c.breakBy,
+            valuePath := Option.none, width := .range c.minW c.maxW }),
+        vis := if f.anySkipped = some false then Option.none
+          else match f.limF, f.limL with
+            | some a, some b => some (some a, some b)
+            | _, _ => some (Option.none, Option.none) } :=
+  parseFmt_fmtToStr f hne hn
+
+/-- numbers survive the trip: `int(str(n)) = n` for the widths and limits a format prints -/
+theorem int_of_str (i : Int) : parsePyInt (intToDec i) = some i := parsePyInt_intToDec i
+
+/-- Same rendering, setter route. In every reachable state of a table built with explicit field
+names (expressible ones), `table.fmt = str(table.fmt)` is accepted and the table then prints exactly
+the same lines; the new format has the same fields and the same columns (modifiers, break-by marks,
+bounds; widths forgotten), and its limits act like the old ones on every body. -/
+theorem same_rendering_setter (a : CtorArgs) (specs : List FieldSpec) (t : Tbl) (ha : a.fields = some specs)
+    (hn : ∀ sp ∈ specs, NameOk sp.name) (hr : Reach a t) (hne : t.fmt.cols ≠ []) :
+    ∃ t1, applySetter t (fmtToStr t.fmt) = .ok t1 ∧ lines t1 = lines t ∧
+      t1.fmt.fields = t.fmt.fields ∧ t1.fmt.cols = t.fmt.cols.map Col.reset ∧
+      ∀ tls n, applyLimits t1.fmt.limF t1.fmt.limL tls n = applyLimits t.fmt.limF t.fmt.limL tls n := by
+  have hi := reach_inv a specs ha t hr
+  have hp := parseFmt_fmtToStr t.fmt hne (inv_colNameOk hi hn)
+  have hcols := setterCols_pcolOf t.fmt.fields t.fmt.cols hi.colsOk
+  have hlim : ∀ tls n, applyLimits
+      (match visOf t.fmt with | some l => l | Option.none => (t.fmt.limF, t.fmt.limL)).1
+      (match visOf t.fmt with | some l => l | Option.none => (t.fmt.limF, t.fmt.limL)).2 tls n
+      = applyLimits t.fmt.limF t.fmt.limL tls n := by
+    intro tls n
+    unfold visOf
+    by_cases hsk : t.fmt.anySkipped = some false
+    · simp [hsk]
+    · simp only [hsk, if_false]
+      cases hF : t.fmt.limF with
+      | none => simp [applyLimits_none_left]
+      | some x =>
+        cases hL : t.fmt.limL with
+        | none => simp [applyLimits_none_right]
+        | some y => rfl
+  refine ⟨{ t with fmt := ⟨t.fmt.fields, t.fmt.cols.map Col.reset,
+      (match visOf t.fmt with | some l => l | Option.none => (t.fmt.limF, t.fmt.limL)).1,
+      (match visOf t.fmt with | some l => l | Option.none => (t.fmt.limF, t.fmt.limL)).2, Option.none⟩ },
+    ?_, ?_, rfl, rfl, hlim⟩
+  · unfold applySetter
+    simp only [hp, pfmtOf, hcols, bind, Except.bind]
+    cases visOf t.fmt <;> rfl
+  · exact lines_of_same t _ hi.widths rfl rfl rfl rfl (fun tls _ => hlim tls _)
+
+/-- Same rendering, constructor route. In every reachable state with natural-number (or absent)
+limits, `PPTable(records, fmt=str(table.fmt), <the same fields, titles, types, header, footer>)` is
+accepted and prints exactly the same lines, with the same fields and columns. (Limits are left out
+of the string when the last printing skipped nothing; the new table then has none, which prints
+the same — `SkipFaithful`, an invariant of all reachable states.) -/
+theorem same_rendering_ctor (a : CtorArgs) (specs : List FieldSpec) (t : Tbl) (ha : a.fields = some specs)
+    (hn : ∀ sp ∈ specs, NameOk sp.name) (hr : Reach a t) (hne : t.fmt.cols ≠ []) (hnat : NatLim t.fmt) :
+    ∃ t2, mkTable { a with fmt := some (fmtToStr t.fmt), limits := Option.none, skip := Option.none } = .ok t2 ∧
+      lines t2 = lines t ∧ t2.fmt.fields = t.fmt.fields ∧ t2.fmt.cols = t.fmt.cols.map Col.reset := by
+  have hi := reach_inv a specs ha t hr
+  have hp := parseFmt_fmtToStr t.fmt hne (inv_colNameOk hi hn)
+  have hcols := ctorCols_pcolOf (mkFields 0 specs) t.fmt.cols (by rw [← hi.fields_eq]; exact hi.colsOk)
+  have hnovp : (t.fmt.cols.map pcolOf).any (fun p => p.valuePath.isSome) = false := by
+    simp [pcolOf]
+  have hlim := limits_of_visOf t hi.skip true (fun _ => hnat)
+  refine ⟨⟨a.records, a.header, footerOf a, ⟨mkFields 0 specs, t.fmt.cols.map Col.reset,
+      (match visOf t.fmt with | some l => l | Option.none => (Option.none, Option.none)).1,
+      (match visOf t.fmt with | some l => l | Option.none => (Option.none, Option.none)).2, Option.none⟩⟩,
+    ?_, ?_, ?_, rfl⟩
+  · unfold mkTable
+    simp only [hp, pfmtOf, ha, hi.nodup, hnovp, hcols, bind, Except.bind, Bool.false_eq_true, if_false]
+    rfl
+  · apply lines_of_same t _ hi.widths
+    · exact hi.records_eq.symm
+    · exact hi.header_eq.symm
+    · rw [hi.footer_eq]
+    · rfl
+    · intro tls htls
+      have := hlim tls htls
+      simp only [if_true] at this
+      rw [← this, hi.records_eq]
+      cases visOf t.fmt <;> rfl
+  · exact hi.fields_eq.symm
+
+/-- Empty formats change nothing. `""`, `";"` and `";;"` are accepted in every reachable state and
+leave fields, columns (modifiers, break-by marks, bounds) and limits as they are — only the
+negotiated widths and the skipped-lines flag are forgotten — and the table prints the same lines. -/
+theorem empty_noop (a : CtorArgs) (specs : List FieldSpec) (t : Tbl) (ha : a.fields = some specs)
+    (hr : Reach a t) (s : List Char) (hs : s = [] ∨ s = [';'] ∨ s = [';', ';']) :
+    applySetter t s = .ok (fresh t) ∧ lines (fresh t) = lines t ∧
+      (fresh t).fmt.fields = t.fmt.fields ∧ (fresh t).fmt.cols = t.fmt.cols.map Col.reset ∧
+      (fresh t).fmt.limF = t.fmt.limF ∧ (fresh t).fmt.limL = t.fmt.limL := by
+  have hi := reach_inv a specs ha t hr
+  have hp : parseFmt s = .ok ⟨.keep, Option.none⟩ := by
+    rcases hs with rfl | rfl | rfl <;> decide
+  refine ⟨?_, hi.widths.symm, rfl, rfl, rfl, rfl⟩
+  unfold applySetter
+  simp only [hp, bind, Except.bind]
+  rfl
+
+/-- The invariants behind the three theorems hold after every history: printing never depends on
+the stored widths, and a `False` skipped-lines flag is the truth about the table. -/
+theorem reachable_invariants (a : CtorArgs) (specs : List FieldSpec) (t : Tbl) (ha : a.fields = some specs)
+    (hr : Reach a t) : WidthsFaithful t ∧ SkipFaithful t ∧ ColsOk t :=
+  have hi := reach_inv a specs ha t hr
+  ⟨hi.widths, hi.skip, hi.colsOk⟩
+
+/-! Non-vacuity: the defect's own witness — `a:2-5,b!:1-9;3:2`, printed, reads `a:2-5(2),b!:1-9(5)` —
+goes through constructor, printing and both routes in the kernel. -/
+
+private def demoArgs : CtorArgs :=
+  { records := [[Val.int 1, Val.str "abc".toList], [Val.int 22, Val.str "defgh".toList]],
+    fields := some [⟨"a".toList, .dflt, .none⟩, ⟨"b".toList, .dflt, .none⟩],
+    fmt := some "a:2-5,b!:1-9;3:2".toList, limits := Option.none, header := Option.none,
+    footer := Option.none, skip := Option.none }
+
+example : (mkTable demoArgs >>= render).map (fun x => String.ofList (fmtToStr x.1.fmt))
+    = .ok "a:2-5(2),b!:1-9(5)" := by decide +kernel
+
+example : (mkTable demoArgs >>= render >>= fun x => applySetter x.1 (fmtToStr x.1.fmt)).map
+    (fun t => String.ofList (fmtToStr t.fmt)) = .ok "a:2-5,b!:1-9;3:2" := by decide +kernel
+
+example : (mkTable demoArgs >>= render >>= fun x =>
+      (do let t1 ← applySetter x.1 (fmtToStr x.1.fmt); let y ← render t1; pure (decide (y.2 = x.2)))) = .ok true := by
+  decide +kernel
+
+example : (mkTable demoArgs >>= fun t => (parseFmt (fmtToStr t.fmt)).map (fun p => p.vis))
+    = .ok (some (some 3, some 2)) := by decide +kernel
+
+example : NameOk "long_field.name".toList := nameOk_of_all _ (by decide)
+
 end C13
